@@ -8,7 +8,7 @@ name=$1; src=$2; prop=$3; shift 3
 checks=("$@")
 out=/verif/seeded/$name
 mkdir -p $out
-cp $src/patch.diff $out/patch.diff
+[ -f $src/patch.diff ] && cp $src/patch.diff $out/patch.diff
 demo=$(ls $src/tests/seeded*.rs | head -1)
 cp $demo $out/
 cp $src/NOTES.md $out/NOTES.md 2>/dev/null || true
